@@ -18,6 +18,9 @@ func main() {
 	rep.Rule = "behaviours of DBFile.tla in both journal modes (local commits, rollbacks, client and LiteFS checkpoints, log restarts, growth and shrink across checksum blocks) replayed on a real node; at every position change and every idle point the reported checksum is compared with CRC64/XOR recomputed by the harness (hash/crc64 only) from the bytes on disk (database file overlaid with the committed frames found by the harness's own WAL walk) and from the bytes read through the handles; non-trivial = at least one transaction was captured"
 	rep.Assumptions = []string{"CRC64 collisions ignored", "replicated applies, snapshots, restart recovery, import and drop are covered by the C01/C05/C15/C16 checks with the same monitor"}
 	defer core.Cleanup()
+	if t3.MaybeReplay(rep, args, map[string]bool{"C04": true}) {
+		rep.Finish()
+	}
 	dbreplay.Post = func() { t3.Stage(rep, args, map[string]bool{"C04": true}) }
 	// replicated applies, snapshots, restarts and drops: the cluster scripts with this property's monitors
 	repl.Main(rep, args, map[string]bool{"C04": true}, []repl.Stage{
